@@ -40,7 +40,9 @@ pub fn gen_requests(rng: &mut Rng, n: u64, out: &mut Out) -> Vec<String> {
         let seed = rng.below(1000);
         let pin = if rng.chance(1, 4) { rng.below(4) as i64 } else { -1 };
         let delay = *rng.pick(&[0u64, 0, 200, 2000, 20000]);
-        let mode = if i % 3 == 2 { "a" } else { "ab" };
+        // mode `as`: breakpoint on site_a, and after every reported stop one `next` (step over a line) before the
+        // `continue` — outside the continue-only histories the model covers: oracle only (no call stream is compared)
+        let mode = if i % 7 == 5 { "as" } else if i % 3 == 2 { "a" } else { "ab" };
         req.push(format!("C09 new {nt} {iters} {seed} {pin} {delay} {mode}"));
         req.push("C09 run 400".to_string());
         out.count(&format!("threads.{}", if nt <= 2 { "2" } else if nt <= 4 { "3-4" } else if nt <= 8 { "5-8" } else { "9-24" }), 1);
@@ -227,7 +229,8 @@ fn session(lines: &[String], native: &str, emit: &mut dyn FnMut(String)) {
         emit(format!("!oracle {}", json!({"key": key, "what": what, "replay": {"session": lines[0]}})));
     };
     let mut s = match launch(&path, &prog_args(&pr)) { Ok(s) => s, Err(e) => { pair(emit, lines[0].clone(), format!("launch-failed {e}").replace(' ', "_")); return; } };
-    let fns: Vec<&str> = if pr.mode == "a" { vec!["ready", "site_a"] } else { vec!["ready", "site_a", "site_b"] };
+    let fns: Vec<&str> = if pr.mode == "a" || pr.mode == "as" { vec!["ready", "site_a"] } else { vec!["ready", "site_a", "site_b"] };
+    let stepping = pr.mode == "as";
     for f in &fns {
         if let Err(e) = s.dbg.set_breakpoint_at_fn(f) { pair(emit, lines[0].clone(), format!("break-failed {e}").replace(' ', "_")); return; }
     }
@@ -261,19 +264,19 @@ fn session(lines: &[String], native: &str, emit: &mut dyn FnMut(String)) {
     let mut exited = None;
     let mut stops = 0u64;
     for _ in 0..max_stops {
-        pair(emit, "C09 cmd continue".into(), "ok".into());
+        if !stepping { pair(emit, "C09 cmd continue".into(), "ok".into()); }
         let r = s.dbg.continue_debugee_with_reason();
         let evs = ipose::take();
-        for d in digest(&evs, &mut names, base, &|a| elf.in_text(a)) { pair(emit, format!("C09 e {d}"), "ok".into()); }
+        if !stepping { for d in digest(&evs, &mut names, base, &|a| elf.in_text(a)) { pair(emit, format!("C09 e {d}"), "ok".into()); } }
         let ans = stop_text(&r, &mut names, base);
         match &r {
-            Ok(StopReason::DebugeeExit(c)) => { pair(emit, "C09 ret".into(), format!("{ans} -")); exited = Some(*c); break; }
-            Err(_) => { pair(emit, "C09 ret".into(), format!("{ans} -")); break; }
+            Ok(StopReason::DebugeeExit(c)) => { if !stepping { pair(emit, "C09 ret".into(), format!("{ans} -")); } exited = Some(*c); break; }
+            Err(_) => { if !stepping { pair(emit, "C09 ret".into(), format!("{ans} -")); } break; }
             _ => {}
         }
         stops += 1;
         let (tbl, listed, marked_running) = table_of(&s.dbg, &mut names).unwrap_or_else(|e| (format!("thread-state-failed:{e}").replace(' ', "_"), BTreeSet::new(), vec![]));
-        pair(emit, "C09 ret".into(), format!("{ans} {tbl}"));
+        if !stepping { pair(emit, "C09 ret".into(), format!("{ans} {tbl}")); } else { emit(format!("@stop {ans}")); }
         if let Ok(StopReason::Breakpoint(p, pc)) = &r && let Some(f) = elf.fn_of(u64::from(*pc).wrapping_sub(base)) {
             *reported.entry((p.as_raw(), f)).or_insert(0) += 1;
         }
@@ -300,6 +303,12 @@ fn session(lines: &[String], native: &str, emit: &mut dyn FnMut(String)) {
             oracle(emit, "thread-list-contains-dead-thread", format!("stop #{stops} `{ans}`: thread list has {t}, the kernel's live tasks are {tasks:?}"));
         }
         ipose::take();
+        if stepping && stops % 2 == 1 {
+            // all threads run during a `next`; a user-breakpoint hit of another thread in that window must still be reported
+            let so = s.dbg.step_over();
+            ipose::take();
+            if let Err(bugstalker::debugger::Error::ProcessExit(c)) = so { exited = Some(c); break; }
+        }
     }
     ipose::set_delay(0, 0);
     let Sess { dbg, output, reader } = s;
@@ -319,6 +328,7 @@ fn session(lines: &[String], native: &str, emit: &mut dyn FnMut(String)) {
         for (f, want) in [("site_a", *a), ("site_b", *b)] {
             if !fns.contains(&f) { continue; }
             let have = reported.get(&(*tid as i32, f)).copied().unwrap_or(0);
+            if stepping && have < want { oracle(emit, "arrival-during-step-of-another-thread-not-reported", format!("thread slot {} {f}: {want} arrivals counted by the debuggee, {have} stops reported; `next` was issued after every other stop", kv.get("slot").copied().unwrap_or(99))); continue; }
             if have > want { oracle(emit, "arrival-reported-more-than-once", format!("thread slot {} {f}: {want} arrivals counted by the debuggee, {have} stops reported", kv.get("slot").copied().unwrap_or(99))); }
             if have < want { oracle(emit, "arrival-not-reported", format!("thread slot {} {f}: {want} arrivals counted by the debuggee, {have} stops reported", kv.get("slot").copied().unwrap_or(99))); }
         }
@@ -367,6 +377,7 @@ pub fn exec(req: &[String], out: &mut Out, tmpdir: &std::path::Path) {
             if let Some(j) = l.strip_prefix("!oracle ") {
                 let v: serde_json::Value = serde_json::from_str(j).unwrap();
                 out.oracle_fail(v["key"].as_str().unwrap(), v["what"].as_str().unwrap(), json!({"session": s, "detail": v["replay"]}));
+            } else if l.starts_with("@stop ") { nstops += 1; out.oracle_evals += 1; out.count("stop.in-step-session", 1);
             } else if let Some(p) = l.strip_prefix("@pair ") && let Some((r, a)) = p.split_once('\t') {
                 if r.starts_with("C09 e ") { nev += 1; let k = r.split(' ').nth(2).unwrap_or("?"); let k2 = if k == "w" { format!("w.{}", r.split(' ').nth(4).unwrap_or("?")) } else { k.to_string() }; out.count(&format!("event.{k2}"), 1); }
                 if r == "C09 ret" { nstops += 1; out.oracle_evals += 1; out.count(&format!("stop.{}", a.split(' ').next().unwrap_or("?")), 1); }
